@@ -121,6 +121,20 @@ fn drive_vamm(id: &str, rng: &mut Rng, maxops: u64) -> Runner {
             r.op(&json!({"k": "query", "c": "vamm1", "q": "twap_price", "a": {"interval": iv}}));
             continue;
         }
+        if roll < 22 {
+            // the market is paused and resumed (owner), sometimes with time passing in between, sometimes a no-op request
+            let open_now = st["open"].as_bool().unwrap_or(true);
+            let want = if rng.chance(80) { !open_now } else { open_now };
+            r.op(&json!({"k": "tx", "c": "vamm1", "m": "set_open", "s": *rng.pick(&["owner", "owner", "owner", "stranger"]), "a": {"open": want}}));
+            if rng.chance(50) {
+                r.op(&json!({"k": "block", "dh": 1, "dt": *rng.pick(&[15i64, 300, 901]), "dns": 0}));
+            }
+            if !want && rng.chance(70) {
+                r.op(&json!({"k": "tx", "c": "vamm1", "m": "set_open", "s": "owner", "a": {"open": true}}));
+                r.op(&json!({"k": "query", "c": "vamm1", "q": "twap_price", "a": {"interval": *rng.pick(&[1i64, 60, 900, 100000])}}));
+            }
+            continue;
+        }
         let input = rng.chance(50);
         let dir = if rng.chance(50) { "add" } else { "rem" };
         // amount: up to ~40% of the relevant reserve, with a bias to small / dust amounts
